@@ -175,8 +175,15 @@ func (rc *refCompiler) enum(d *Decl, file string) {
 		prefix = Screaming(d.Name) + "_"
 	}
 	e := &CEnum{FullName: d.FullName(), File: file}
-	e.Values = append(e.Values, CEnumVal{prefix + "UNSPECIFIED", 0})
-	for i, o := range d.Options {
+	opts := d.Options
+	if len(opts) > 0 && strings.HasSuffix(opts[0].Name, "UNSPECIFIED") && !d.ExplicitUnspecified {
+		// a first option ending in UNSPECIFIED is the zero value, spelled by the author
+		e.Values = append(e.Values, CEnumVal{prefix + strings.TrimPrefix(opts[0].Name, prefix), 0})
+		opts = opts[1:]
+	} else {
+		e.Values = append(e.Values, CEnumVal{prefix + "UNSPECIFIED", 0})
+	}
+	for i, o := range opts {
 		e.Values = append(e.Values, CEnumVal{prefix + o.Name, o.Num(i)})
 	}
 	rc.c.Enums[e.FullName] = e
@@ -254,8 +261,14 @@ func (rc *refCompiler) leaf(t *Type, f *Field, parentFull, file string, owner *D
 			prefix = Screaming(name) + "_"
 		}
 		e := &CEnum{FullName: full, File: file}
-		e.Values = append(e.Values, CEnumVal{prefix + "UNSPECIFIED", 0})
-		for i, o := range inl.Options {
+		opts := inl.Options
+		if len(opts) > 0 && strings.HasSuffix(opts[0].Name, "UNSPECIFIED") && !inl.ExplicitUnspecified {
+			e.Values = append(e.Values, CEnumVal{prefix + strings.TrimPrefix(opts[0].Name, prefix), 0})
+			opts = opts[1:]
+		} else {
+			e.Values = append(e.Values, CEnumVal{prefix + "UNSPECIFIED", 0})
+		}
+		for i, o := range opts {
 			e.Values = append(e.Values, CEnumVal{prefix + o.Name, int32(i + 1)})
 		}
 		rc.c.Enums[full] = e
